@@ -8,7 +8,7 @@ arguments, that each translated piece is the corresponding piece of the model `F
 the theorems of C08 are about. (Exact statements with comments: FitProps/Go2LeanReadBuffer.lean.)
 
 PROPERTY THEOREMS (audited by ./check): C08_go2lean_consts, C08_go2lean_remaining, C08_go2lean_cur, C08_go2lean_copy,
-C08_go2lean_fill, C08_go2lean_refill, C08_go2lean_window, C08_go2lean_clamp, C08_go2lean_reset
+C08_go2lean_fill, C08_go2lean_refill, C08_go2lean_window, C08_go2lean_clamp, C08_go2lean_reset, C08_go2lean_readN_recomposed
 -/
 namespace Fit.C08
 open Fit.Go2Lean Fit.ReadBuffer Go.readbuffer
@@ -47,5 +47,17 @@ theorem C08_go2lean_reset (cap size : Nat) (hs : size < 2^62) :
     Reset_grow ((cap : Int) - (Go.readbuffer.reservedbuf : Int)) size = decide (cap < Fit.Gen.Reader.reservedbuf + size) ∧
     Reset_allocLen size = ((Fit.Gen.Reader.reservedbuf + size : Nat) : Int) ∧
     Reset_len size = ((Fit.Gen.Reader.reservedbuf + size : Nat) : Int) := rb_reset cap size hs
+
+/-- `ReadN` re-assembled from the translated pieces in the order of the Go text (`Fit.Go2Lean.readNGo`: the translated runs,
+conditions, slice bounds and arguments; from the model only `copy`, `io.ReadAtLeast`, the storing of its bytes and Go's
+slice-bounds rule) IS the model's step function `RB.readN` — outcome, returned bytes, every cell, both cursors, the rest of
+the reader's schedule — for every buffer state meeting the first three clauses of the model's invariant `Inv`, every
+schedule and every request size -/
+theorem C08_go2lean_readN_recomposed (b : RB) (n : Nat) (h1 : b.cur ≤ b.last) (h2 : b.last ≤ b.len) (h3 : b.len ≤ b.arr.length)
+    (h4 : b.arr.length < 2^62) (hn : n < 2^62) : readNGo b n = b.readN n := rb_readN_recomposed b n h1 h2 h3 h4 hn
+
+/-- non-vacuity: a fresh 4096-byte buffer over a two-chunk reader meets the hypotheses -/
+example : let b := RB.fresh [⟨[1, 2, 3], none⟩, ⟨[4, 5], none⟩] 4096
+    b.cur ≤ b.last ∧ b.last ≤ b.len ∧ b.len ≤ b.arr.length ∧ b.arr.length < 2^62 := by decide +kernel
 
 end Fit.C08
